@@ -133,3 +133,20 @@ func (q *ByzRequest) Build() (wire, requestKey []byte, err error) {
 	}
 	return append(msg, sig...), requestKey, nil
 }
+
+// SignP384Raw signs SHA-384(msg) with the scalar secret using crypto/ecdsa and returns the
+// fixed-width r||s.
+func SignP384Raw(secret, msg []byte, rnd io.Reader) ([]byte, error) {
+	c := elliptic.P384()
+	d := new(big.Int).SetBytes(secret)
+	x, y := c.ScalarBaseMult(secret)
+	dg := sha512.Sum384(msg)
+	r, s, err := stdecdsa.Sign(rnd, &stdecdsa.PrivateKey{PublicKey: stdecdsa.PublicKey{Curve: c, X: x, Y: y}, D: d}, dg[:])
+	if err != nil {
+		return nil, err
+	}
+	sig := make([]byte, 96)
+	r.FillBytes(sig[:48])
+	s.FillBytes(sig[48:])
+	return sig, nil
+}
